@@ -353,6 +353,95 @@ def build():
 
     add("burst", burst_samples(), 8)
 
+    def buffer_ctor(r):
+        """constructors whose parameters are documented as 'number or buffer' get the buffer form, caller-owned, and the same
+        buffers are used for a second construction straight away (a retransmitted block is decoded twice)"""
+        import importlib
+        from bitarray import bitarray
+        name, mod, sizes = r.choice([("Rate12Data", "rate12_data", (12, 10, 8, 6)), ("Rate34Data", "rate34_data", (18, 16, 14, 12)),
+                                     ("Rate1Data", "rate1_data", (24, 22, 20, 18))])
+        C = getattr(importlib.import_module("okdmr.dmrlib.etsi.layer2.pdu." + mod), name)
+        n = r.choice(sizes)
+        raw = bytes(r.getrandbits(8) for _ in range(n))
+        data = wrap(raw) if r.random() < 0.5 else track(bitarray("".join(format(x, "08b") for x in raw)))
+        dbsn = rbits(r, 7)
+        crc9 = bitarray([r.getrandbits(1) for _ in range(9)])
+        if crc9 == crc9[::-1]:
+            crc9.invert(0)                     # not a palindrome: reading it in the other direction shows
+        track(crc9)
+        crc32 = rbytes(r, 4)
+        out = []
+        for _ in range(3):
+            o = C(data=data, dbsn=dbsn, crc9=crc9, crc32=crc32)
+            out.append((o, o.as_bits()))
+        return out, [data, dbsn, crc9, crc32]
+
+    add("buffer_ctor", buffer_ctor, 9)
+
+    def slc_pi_ctor(r):
+        from okdmr.dmrlib.etsi.layer2.elements.slcos import SLCOs
+        from okdmr.dmrlib.etsi.layer3.elements.activity_id import ActivityID
+        from okdmr.dmrlib.etsi.layer2.pdu.pi_header import PIHeader
+        from okdmr.dmrlib.etsi.layer2.pdu.short_link_control import ShortLinkControl
+        crc8, a1, a2 = rbits(r, 8), rbits(r, 8), rbits(r, 8)
+        d, c = rbytes(r, 10), rbytes(r, 2)
+        out = []
+        for _ in range(2):
+            s = ShortLinkControl(slco=SLCOs.ActivityUpdate, crc_8bit=crc8, ts1_activity_id=r.choice(list(ActivityID)),
+                                 ts2_activity_id=ActivityID.NoActivity, ts1_address=a1, ts2_address=a2)
+            p = PIHeader(data=d, crc=c)
+            out.append((s.as_bits(), repr(s), p.as_bits(), p.crc_ok))
+        return out, [crc8, a1, a2, d, c]
+
+    add("slc_pi_ctor", slc_pi_ctor, 3)
+
+    def burst_deinterleave(r):
+        """the payload decoding of a burst, called on a caller-owned 196-bit buffer twice over, for every data type"""
+        from okdmr.dmrlib.etsi.fec.bptc_196_96 import BPTC19696
+        from okdmr.dmrlib.etsi.fec.trellis import Trellis34
+        from okdmr.dmrlib.etsi.layer2.burst import Burst
+        from okdmr.dmrlib.etsi.layer2.elements.data_types import DataTypes
+        out, bufs = [], []
+        for dt in [DataTypes.Rate1Data, DataTypes.Rate34Data, DataTypes.Rate12Data, DataTypes.CSBK, DataTypes.DataHeader,
+                   DataTypes.VoiceLCHeader, DataTypes.TerminatorWithLC, DataTypes.PIHeader, DataTypes.MBCHeader, DataTypes.Idle]:
+            if dt == DataTypes.Rate1Data:
+                bits = rbits(r, 196)
+            elif dt == DataTypes.Rate34Data:
+                bits = track(Trellis34.encode(rbits(r, 144)))
+            else:
+                bits = track(BPTC19696.encode(rbits(r, 96)))
+            bufs.append(bits)
+            for _ in range(2):
+                try:
+                    out.append(Burst.deinterleave(bits, dt))
+                except (ValueError, KeyError, NotImplementedError, AssertionError) as ex:
+                    out.append(ex)
+        return out, bufs
+
+    add("burst_deinterleave", burst_deinterleave, 3)
+
+    def burst_generated(r):
+        """bursts of every data kind (rate-1 and rate-3/4 blocks included) decoded from caller-owned bits, and the burst's own
+        stored payload bits decoded once more"""
+        from harness import gen
+        from harness.drivers.c01 import make_pdu
+        from okdmr.dmrlib.etsi.layer2.burst import Burst
+        from okdmr.dmrlib.etsi.layer2.elements.burst_types import BurstTypes
+        from okdmr.dmrlib.utils.bits_bytes import bytes_to_bits
+        kind = r.choice(["R1/u", "R1/c", "R34/u", "R34/c", "R12/u", "R12/c", "CSBK/other", "DH/U", "VLC", "TLC", "PI"])
+        pdu, dt, _ = make_pdu(r, kind)
+        raw = gen.assemble_data_burst(pdu, dt, r.randrange(16), r.choice(gen.DATA_SYNCS))
+        bits = track(bytes_to_bits(raw))
+        out = []
+        for _ in range(2):
+            b = Burst.from_bits(bits, burst_type=BurstTypes.DataAndControl)
+            again = Burst.deinterleave(b.info_bits_original, b.data_type)
+            out.append((b.as_bytes(), repr(b.data), b.info_bits_original, b.info_bits_deinterleaved, again,
+                        Burst.deinterleave(b.info_bits_original, b.data_type)))
+        return out, [bits]
+
+    add("burst_generated", burst_generated, 12)
+
     # ---------------------------------------------------------------- Hytera
     def hytera_samples(rel, what):
         samples = harvest(rel)
